@@ -68,6 +68,10 @@ def run(P, rep, tier):
     rep.attempt(r4_magic_parse, P, rep, ctx)
     rep.attempt(r5_payload_hash, P, rep, ctx)
     rep.attempt(r6_fresh_container_uuid, P, rep, ctx)
+    # the payload hash that is compared is computed by util.hashsums.hashsum: every chunk of the file reaches the digest (C19.R1)
+    from . import c19 as _c19
+
+    rep.attempt(_c19.r1_chunk_loop, P, rep, ctx)
     rep.floor("C04.R1", 12)
     rep.floor("C04.R2", 8)
     rep.floor("C04.R3", 6)
